@@ -3577,6 +3577,11 @@ impl Connection {
         self.idle_timeout =
             negotiate_max_idle_timeout(self.config.max_idle_timeout, Some(params.max_idle_timeout));
         trace!("negotiated max idle timeout {:?}", self.idle_timeout);
+        if self.idle_timeout.is_none() {
+            // A timer armed under a previous value (e.g. parameters remembered for 0-RTT) must not
+            // outlive it: `reset_idle_timeout` never touches the timer while no timeout applies
+            self.timers.stop(Timer::Idle);
+        }
         if let Some(ref info) = params.preferred_address {
             self.rem_cids.insert(NewConnectionId {
                 sequence: 1,
